@@ -723,6 +723,23 @@ def run(tier, seed, replay=None):
         while rounds[-1] and rnd < 5:
             cases = rounds[-1]
             ci = run_lines([hbin], [c.line(i) for i, c in enumerate(cases)])
+            if rnd == 0:
+                # "in the current locale": what a call does must not depend on the locale an EARLIER call ran in.  The same
+                # lines once more in processes whose first call of every entry point happened in locale C resp. C.UTF-8.
+                for prime in ("prime=C", "prime=U"):
+                    cp = run_lines([hbin, prime], [c.line(i) for i, c in enumerate(cases)])
+                    for i, c in enumerate(cases):
+                        a, b = ci.get(i), cp.get(i)
+                        if a is None or b is None or c.fn.startswith("L_"):
+                            continue
+                        if {k: v for k, v in a.items() if k != "id"} != {k: v for k, v in b.items() if k != "id"}:
+                            sig = "%s:depends-on-earlier-calls:%s" % (c.fn, prime)
+                            dk = [k for k in a if a.get(k) != b.get(k)]
+                            res.violations.append((sig, dict(kind="property-fails-on-implementation", property=PID, sig=sig, fn=c.fn,
+                                detail="the same call in locale %s differs after the process's first calls ran in locale %s: %s" % (c.loc, prime[-1], {k: (a.get(k, "")[:60], b.get(k, "")[:60]) for k in dk[:4]}),
+                                origin=c.origin, line=c.line(0), prime=prime, slack=slack, impl=b, impl_unprimed=a)))
+                            sig_examples.setdefault(sig, c.line(i))
+                    res.count("history", prime)
             mi = run_lines([orch.MODEL_BIN], model_lines(cases, slack), workers=3) if drv_ok else {}
             for i, c in enumerate(cases):
                 dc, dm = ci.get(i), mi.get(i)
